@@ -260,6 +260,91 @@ let cmd_lookup (toks : string list) : string =
               else ",\"spec\":null}")) ids ^ "}")
   | _ -> "EXN lookup args"
 
+
+(* ---------- reader ---------- *)
+let rec nat_of_int (i : int) : nat = if i <= 0 then O else S (nat_of_int (i - 1))
+let jstr (s : cstring) = "\"" ^ ocaml_string s ^ "\""
+let kv k v = "\"" ^ k ^ "\":" ^ v
+let obj l = "{" ^ String.concat "," l ^ "}"
+let jrs (r : sample option res) : string =
+  match r with
+  | Ok (Some s) -> obj [kv "r" "\"some\""; kv "start" (jn s.sm_start_time); kv "dur" (jn s.sm_duration); kv "cts" (jz s.sm_rendering_offset);
+                        kv "sync" (jb s.sm_is_sync); kv "len" (string_of_int (List.length s.sm_bytes)); kv "bytes" (jbytes s.sm_bytes)]
+  | Ok None -> obj [kv "r" "\"none\""]
+  | Err EIo -> obj [kv "r" "\"io\""]
+  | Err _ -> obj [kv "r" "\"data\""]
+  | Panic s -> obj [kv "r" "\"panic\""; kv "site" (jstr s)]
+  | OutOfFuel -> obj [kv "r" "\"oof\""]
+
+let dump_reader (m : mode) (r : mp4reader) (data : n list) (extra : int) (maxs : int) : string list =
+  let ids = List.sort_uniq compare (List.map (fun (k, _) -> int_of_n k) r.rd_tracks) in
+  let tracks = List.map (fun id ->
+      let t = match tracks_get (n_of_int id) r.rd_tracks with Some t -> t | None -> failwith "track" in
+      obj ([kv "id" (string_of_int id); kv "track_id" (jn (mt_track_id t)); kv "type" (jres jstr (mt_track_type t));
+            kv "media" (jres jstr (mt_media_type t)); kv "box" (jres jn (mt_box_type t)); kv "w" (jn (mt_width t)); kv "h" (jn (mt_height t));
+            kv "sfi" (jres jstr (mt_sample_freq_index t)); kv "chan" (jres jstr (mt_channel_config t)); kv "lang" (jbytes (mt_language t));
+            kv "ts" (jn (mt_timescale t)); kv "dur_us" (jn (mt_duration_us t)); kv "bitrate" (jo jn (mt_bitrate t));
+            kv "count" (jn (mt_sample_count t)); kv "vprofile" (jres jstr (mt_video_profile t));
+            kv "sps" (jres jbytes (mt_sequence_parameter_set t)); kv "pps" (jres jbytes (mt_picture_parameter_set t));
+            kv "aprofile" (jres jstr (mt_audio_profile t))])) ids in
+  let call kind tid sid =
+    let v = match kind with
+      | "cnt" -> jres jn (rd_sample_count r (n_of_int tid))
+      | "off" -> jres jn (rd_sample_offset m r (n_of_int tid) (n_of_int sid))
+      | _ -> let (res, _) = run (rd_read_sample m r (n_of_int tid) (n_of_int sid)) (stream_at data N0) in jrs res in
+    "[\"" ^ kind ^ "\"," ^ string_of_int tid ^ "," ^ string_of_int sid ^ "," ^ v ^ "]" in
+  let calls = List.concat_map (fun id ->
+      let t = match tracks_get (n_of_int id) r.rd_tracks with Some t -> t | None -> failwith "track" in
+      let n = min (int_of_n (mt_sample_count t)) maxs in
+      [call "cnt" id 0]
+      @ List.concat_map (fun k -> [call "off" id k; call "rs" id k]) (List.init (n + extra + 1) (fun k -> k))
+      @ List.concat_map (fun k -> [call "off" id k; call "rs" id k]) [0x7fffffff; 0x80000000; 0xfffffffe; 0xffffffff]) ids in
+  let unk = (List.fold_left max 0 ids + 1) land 0xffffffff in
+  let calls = calls @ [call "cnt" unk 0; call "rs" unk 1; call "off" 0 1] in
+  let md = rd_metadata r in
+  [kv "acc" (obj [kv "size" (jn (rd_get_size r)); kv "major" (jn (rd_major_brand r)); kv "minor" (jn (rd_minor_version r));
+                  kv "brands" (jl jn (rd_compatible_brands r)); kv "duration_ms" (jn (rd_duration_ms r)); kv "timescale" (jn (rd_timescale r));
+                  kv "fragmented" (jb (rd_is_fragmented r))]);
+   kv "tracks" ("[" ^ String.concat "," tracks ^ "]"); kv "calls" ("[" ^ String.concat "," calls ^ "]");
+   kv "meta" (obj [kv "title" (jo jbytes (md_title md)); kv "year" (jo jn (md_year md)); kv "poster" (jo jbytes (md_poster md));
+                   kv "summary" (jo jbytes (md_summary md))])]
+
+let rclass_str = function
+  | Ok _ -> "\"ok\"" | Err EIo -> "\"io\"" | Err _ -> "\"data\"" | Panic _ -> "\"panic\"" | OutOfFuel -> "\"oof\""
+
+(* read <mode> <declared_len|-> <hex> [frag=<hex>] [extra=<n>] [maxs=<n>] [fail=<k>] *)
+let cmd_read (toks : string list) : string =
+  match toks with
+  | md :: dlen :: data :: opts ->
+    let m = mode_of md in
+    let data = bytes_of_hex data in
+    let len = List.length data in
+    let opt k d = try let p = k ^ "=" in
+        let t = List.find (fun s -> String.length s > String.length p && String.sub s 0 (String.length p) = p) opts in
+        String.sub t (String.length p) (String.length t - String.length p) with Not_found -> d in
+    let extra = int_of_string (opt "extra" "2") and maxs = int_of_string (opt "maxs" "400") in
+    let declared = if dlen = "-" then n_of_int len else n_of_hex dlen in
+    let fault = match opt "fail" "" with "" -> None | k -> Some (n_of_int (int_of_string k)) in
+    let fuel = nat_of_int (len + 2) in
+    let ((res, _), meter) = runm (open_fuel fuel m declared) (stream_at data N0) (meter0 fault) in
+    let fields = [kv "open" (rclass_str res);
+                  kv "ops" (jn meter.m_ops); kv "moved" (jn meter.m_bytes); kv "steps" (jn meter.m_steps);
+                  kv "alloc_max" (jn meter.m_alloc_max); kv "alloc_sum" (jn meter.m_alloc_sum); kv "fired" (jb meter.m_fired)]
+                 @ (match res with Panic s -> [kv "site" (jstr s)] | _ -> []) in
+    let fields = match res with
+      | Ok r ->
+        let fr = (match opt "frag" "" with
+            | "" -> []
+            | fh ->
+              let seg = bytes_of_hex fh in
+              let (r2, _) = run (open_fragment_fuel (nat_of_int (List.length seg + 2)) m r (n_of_int (List.length seg))) (stream_at seg N0) in
+              [kv "open_frag" (rclass_str r2)]
+              @ (match r2 with Ok rr -> [kv "frag" (obj (dump_reader m rr seg extra maxs))] | Panic s -> [kv "frag_site" (jstr s)] | _ -> [])) in
+        fields @ fr @ dump_reader m r data extra maxs
+      | _ -> fields in
+    obj fields
+  | _ -> "EXN read args"
+
 (* ---------- commands ---------- *)
 let handle (line : string) : string =
   match String.split_on_char ' ' line with
@@ -299,14 +384,22 @@ let handle (line : string) : string =
   | "mux" :: rest -> cmd_mux rest
   | "isofile" :: rest -> cmd_isofile rest
   | "lookup" :: rest -> cmd_lookup rest
+  | "read" :: rest -> cmd_read rest
   | ["ping"] -> "pong"
   | _ -> "EXN unknown command"
 
+exception Case_timeout
 let () =
+  Sys.set_signal Sys.sigalrm (Sys.Signal_handle (fun _ -> raise Case_timeout));
+  let limit = try int_of_string (Sys.getenv "MODEL_CASE_SECONDS") with _ -> 5 in
   try
     while true do
       let line = input_line stdin in
-      let out = try handle line with e -> "EXN " ^ Printexc.to_string e in
+      ignore (Unix.alarm limit);
+      let out = try handle line with
+        | Case_timeout -> "EXN Out_of_memory (case time limit: the model builds unary fuel from a huge count field)"
+        | e -> "EXN " ^ Printexc.to_string e in
+      ignore (Unix.alarm 0);
       print_string out; print_char '\n'
     done
   with End_of_file -> ()
